@@ -54,6 +54,9 @@ pub(crate) struct FilesEntryIterator {
 
     /// Options to configure behavior when reading from table files.
     read_options: ReadOptions,
+
+    /// The error that made the iterator invalid, if it was an error that ended the iteration.
+    maybe_error: Option<RainDBError>,
 }
 
 /// Crate-only methods
@@ -70,12 +73,33 @@ impl FilesEntryIterator {
             current_table_iter: None,
             table_cache,
             read_options,
+            maybe_error: None,
         }
     }
 }
 
 /// Private methods
 impl FilesEntryIterator {
+    /// Become invalid because of the provided error and keep the error for `status()`.
+    fn fail(&mut self, error: RainDBError) {
+        self.current_table_iter = None;
+        self.maybe_error = Some(error);
+    }
+
+    /// Position the iterator with `position` and keep the error, if there is one.
+    fn positioned_by(
+        &mut self,
+        position: impl FnOnce(&mut Self) -> RainDBResult<()>,
+    ) -> RainDBResult<()> {
+        self.maybe_error = None;
+        let result = position(self);
+        if let Err(error) = &result {
+            self.fail(error.clone());
+        }
+
+        result
+    }
+
     /// Set the table iterator to be used for iteration.
     fn set_table_iter(&mut self, maybe_new_index: Option<usize>) -> RainDBResult<()> {
         if maybe_new_index.is_none() || maybe_new_index.unwrap() == self.file_list.len() {
@@ -154,30 +178,34 @@ impl RainDbIterator for FilesEntryIterator {
     }
 
     fn seek(&mut self, target: &Self::Key) -> Result<(), Self::Error> {
-        let maybe_new_index =
-            super::utils::find_file_with_upper_bound_range(&self.file_list, target);
-        self.set_table_iter(maybe_new_index)?;
+        self.positioned_by(|iter| {
+            let maybe_new_index =
+                super::utils::find_file_with_upper_bound_range(&iter.file_list, target);
+            iter.set_table_iter(maybe_new_index)?;
 
-        if self.current_table_iter.is_some() {
-            self.current_table_iter.as_mut().unwrap().seek(target)?;
-        }
+            if iter.current_table_iter.is_some() {
+                iter.current_table_iter.as_mut().unwrap().seek(target)?;
+            }
 
-        self.skip_empty_table_files_forward()?;
+            iter.skip_empty_table_files_forward()?;
 
-        Ok(())
+            Ok(())
+        })
     }
 
     fn seek_to_first(&mut self) -> Result<(), Self::Error> {
-        let new_file_index = 0;
-        self.set_table_iter(Some(new_file_index))?;
+        self.positioned_by(|iter| {
+            let new_file_index = 0;
+            iter.set_table_iter(Some(new_file_index))?;
 
-        if self.current_table_iter.is_some() {
-            self.current_table_iter.as_mut().unwrap().seek_to_first()?;
-        }
+            if iter.current_table_iter.is_some() {
+                iter.current_table_iter.as_mut().unwrap().seek_to_first()?;
+            }
 
-        self.skip_empty_table_files_forward()?;
+            iter.skip_empty_table_files_forward()?;
 
-        Ok(())
+            Ok(())
+        })
     }
 
     fn seek_to_last(&mut self) -> Result<(), Self::Error> {
@@ -186,15 +214,17 @@ impl RainDbIterator for FilesEntryIterator {
         } else {
             self.file_list.len() - 1
         };
-        self.set_table_iter(Some(new_file_index))?;
+        self.positioned_by(|iter| {
+            iter.set_table_iter(Some(new_file_index))?;
 
-        if self.current_table_iter.is_some() {
-            self.current_table_iter.as_mut().unwrap().seek_to_last()?;
-        }
+            if iter.current_table_iter.is_some() {
+                iter.current_table_iter.as_mut().unwrap().seek_to_last()?;
+            }
 
-        self.skip_empty_table_files_backward()?;
+            iter.skip_empty_table_files_backward()?;
 
-        Ok(())
+            Ok(())
+        })
     }
 
     fn next(&mut self) -> Option<(&Self::Key, &Vec<u8>)> {
@@ -203,11 +233,19 @@ impl RainDbIterator for FilesEntryIterator {
         }
 
         if self.current_table_iter.as_mut().unwrap().next().is_none() {
+            // The table iterator may have stopped because of a read error and not because it
+            // reached the end of its file
+            if let Some(error) = self.current_table_iter.as_ref().unwrap().status() {
+                self.fail(error);
+                return None;
+            }
+
             if let Err(error) = self.skip_empty_table_files_forward() {
                 log::error!(
                     "There was an error skipping forward. Original error: {}",
                     error
                 );
+                self.fail(error);
                 return None;
             }
         }
@@ -225,11 +263,17 @@ impl RainDbIterator for FilesEntryIterator {
         }
 
         if self.current_table_iter.as_mut().unwrap().prev().is_none() {
+            if let Some(error) = self.current_table_iter.as_ref().unwrap().status() {
+                self.fail(error);
+                return None;
+            }
+
             if let Err(error) = self.skip_empty_table_files_backward() {
                 log::error!(
                     "There was an error skipping backward. Original error: {}",
                     error
                 );
+                self.fail(error);
                 return None;
             }
         }
@@ -247,6 +291,10 @@ impl RainDbIterator for FilesEntryIterator {
         }
 
         self.current_table_iter.as_ref().unwrap().current()
+    }
+
+    fn status(&self) -> Option<Self::Error> {
+        self.maybe_error.clone()
     }
 }
 
@@ -324,7 +372,8 @@ impl MergingIterator {
             }
         }
 
-        None
+        // Errors that stopped a child iterator while it was being stepped
+        self.iterators.iter().find_map(|iter| iter.status())
     }
 
     /// Register a closure that is called when the iterator is dropped.
@@ -429,6 +478,9 @@ impl RainDbIterator for MergingIterator {
     }
 
     fn seek(&mut self, target: &Self::Key) -> Result<(), Self::Error> {
+        // Errors of an earlier positioning no longer describe the iterator's state
+        self.errors.iter_mut().for_each(|maybe_error| *maybe_error = None);
+
         for index in 0..self.iterators.len() {
             let iter = &mut self.iterators[index];
             let seek_result = iter.seek(target);
@@ -444,6 +496,9 @@ impl RainDbIterator for MergingIterator {
     }
 
     fn seek_to_first(&mut self) -> Result<(), Self::Error> {
+        // Errors of an earlier positioning no longer describe the iterator's state
+        self.errors.iter_mut().for_each(|maybe_error| *maybe_error = None);
+
         for index in 0..self.iterators.len() {
             let iter = &mut self.iterators[index];
             let seek_result = iter.seek_to_first();
@@ -459,6 +514,9 @@ impl RainDbIterator for MergingIterator {
     }
 
     fn seek_to_last(&mut self) -> Result<(), Self::Error> {
+        // Errors of an earlier positioning no longer describe the iterator's state
+        self.errors.iter_mut().for_each(|maybe_error| *maybe_error = None);
+
         for index in 0..self.iterators.len() {
             let iter = &mut self.iterators[index];
             let seek_result = iter.seek_to_last();
@@ -575,6 +633,13 @@ impl RainDbIterator for MergingIterator {
         }
 
         None
+    }
+
+    fn status(&self) -> Option<Self::Error> {
+        self.errors
+            .iter()
+            .find_map(|maybe_error| maybe_error.clone())
+            .or_else(|| self.iterators.iter().find_map(|iter| iter.status()))
     }
 }
 
